@@ -18,6 +18,7 @@ class Prop(BaseProp):
     assumptions = [
         'local-lookup theorem: StoreOk key hypothesis and the C01 invariant; on-disk end-to-end theorem: well-formed records, byte-valued chunk hashes, shard below 4 GiB, 64-bit totals',
         "on-disk theorem: the bytes at the hinted block position are the serialisation of a well-formed block (proved of every producer in C09) and the hint points inside it",
+        "C05_ondisk_complete: at most eight table entries share the truncated hash of the queried chunk (the code examines eight candidates)",
         "where several truthful candidates exist (equal truncated keys; unstable sort) the comparator accepts any member of the model's candidate set",
     ]
     rule = ("stream c05: one shard (duplicate chunk hashes within/across xorbs, engineered groups sharing the 64-bit prefix, optional keyed re-export) + query sequences "
